@@ -604,8 +604,11 @@ package interpreter
 //@ extern invoke:Store.GetAccountsMetadata(recv, ctx, query)
 //@   ensures [store-owned] external(ref(result)) && forallstr(a, has(result, a) ==> external(ref(result[a])))
 
+// "ASSET AMOUNT": the asset is the text before the only blank, the amount the base-ten numeral after it, at any size and sign
 //@ func parseMonetary
 //@   ensures [typed-error] {C12} err != nil ==> typeis(err, InvalidMonetaryLiteral) || typeis(err, InvalidNumberLiteral)
+//@   ensures [two-parts] {C13} (err == nil) == (nsplit(source, " ") == 2 && isnumeral(splitpart(source, " ", 1), 10))
+//@   ensures [same-value] {C13} err == nil ==> result.Asset == splitpart(source, " ", 0) && val(result.Amount) == numval(splitpart(source, " ", 1), 10)
 //@   modifies nothing
 
 //@ func ParsePortionSpecific
@@ -620,6 +623,8 @@ package interpreter
 //@   ensures [same-text] {C13} err == nil && (type_ == "asset" || type_ == "string" || type_ == "account") ==> (type_ == "asset" ==> as(result, Asset) == rawValue) && (type_ == "string" ==> as(result, String) == rawValue)
 //@   ensures [unknown-type] {C12,C17} type_ != "monetary" && type_ != "account" && type_ != "portion" && type_ != "asset" && type_ != "number" && type_ != "string" ==> typeis(err, InvalidTypeErr)
 //@   ensures [typed-error] {C12} err != nil ==> typeis(err, InvalidMonetaryLiteral) || typeis(err, InvalidNumberLiteral) || typeis(err, BadPortionParsingErr) || typeis(err, InvalidAccountName) || typeis(err, InvalidTypeErr)
+//@   ensures [number-value] {C13} type_ == "number" ==> (err == nil) == isnumeral(rawValue, 10) && (err == nil ==> val(as(result, MonetaryInt)) == numval(rawValue, 10))
+//@   ensures [monetary-value] {C13} type_ == "monetary" && err == nil ==> as(result, Monetary).Asset == splitpart(rawValue, " ", 0) && val(as(result, Monetary).Amount) == numval(splitpart(rawValue, " ", 1), 10)
 //@   modifies nothing
 
 //@ spec storeOk(st) = queryOk(st) && cacheOk(st) && cacheOwned(st) && st.Store != nil && !has(st.CurrentBalanceQuery, "world")
